@@ -17,6 +17,8 @@
 //!    record `g<granted 0/1/-> t<term> x<timer expired> m<role of self in membership> e[events]`
 //! k=jn t=T log=<terms> nodes=..                     ops: `join:ID:ROLE:STATUS`, `ok:P:T:M`, `fl:D`
 //!    record `c<commit> l<last index> j[id:state,..] e[events]`   state = pending | ok | err
+//! k=pq t=T log=<terms> nodes=..                     ops: `P:IDS`, `ok:P:T:M`, `fl:D`, `A` (apply committed config entries)
+//!    record `c<commit> l<last> m[match] v[voters of the CACHED cluster metadata] tv<total_voters> sv<single_voter> e[..]`
 #[path = "../memb_env.rs"]
 mod env;
 use std::sync::Arc;
@@ -500,6 +502,97 @@ async fn run_jn(f: &std::collections::HashMap<String, String>, ops: &str) -> Str
     out.join(" | ")
 }
 
+// ------------------------------------------------------------------------- promotion in flight
+/// k=pq t=T log=<terms> nodes=..   ops: `P:IDS` (handle_promote_ready_learners with this queue), `ok:P:T:M`, `fl:D`,
+/// `A` (apply the committed, not yet applied config entries of the leader's log + MembershipApplied)
+/// record `c<commit> l<last> m[match] v[voter ids of the CACHED cluster metadata] tv<total_voters> sv<single_voter> e[..]`
+async fn run_pq(f: &std::collections::HashMap<String, String>, ops: &str) -> String {
+    let initial = parse_nodes(&f["nodes"]);
+    let mut env = Env::new(1, initial, 1).await;
+    env.append_terms(&nat_list(f.get("log").map(|s| s.as_str()).unwrap_or("-"))).await;
+    let mut st = LeaderState::<T>::new(1, env.cfg.clone());
+    st.update_current_term(f["t"].parse().unwrap());
+    let peer_ids = env.ctx.membership().get_peers_id_with_condition(|_| true).await;
+    st.init_peers_next_index_and_match_index(env.ctx.raft_log().last_entry_id(), peer_ids).unwrap();
+    let mem = env.ctx.membership.clone();
+    st.init_cluster_metadata(&mem).await.unwrap();
+    let mut applied_upto: u64 = env.ctx.raft_log().last_entry_id(); // config entries exist only above the initial log
+    let mut out = vec![];
+    let mut steps: Vec<&str> = vec![""];
+    steps.extend(ops.split(';').filter(|s| !s.is_empty()));
+    for op in steps {
+        let p: Vec<&str> = op.split(':').collect();
+        let mut extra: Vec<String> = vec![];
+        let tx = env.tx.clone();
+        match p[0] {
+            "" => {}
+            "P" => {
+                st.pending_promotions.clear();
+                for id in ids(p[1]) {
+                    st.pending_promotions.push_back(PendingPromotion::new(id, tokio::time::Instant::now()));
+                }
+                if let Err(e) = st.handle_promote_ready_learners(&env.ctx, &tx).await {
+                    extra.push(format!("!{}", err_tag(&e)));
+                }
+                extra.push(format!("left:{}", show_ids(st.pending_promotions.iter().map(|x| x.node_id).collect())));
+                st.pending_promotions.clear();
+            }
+            "ok" => {
+                let peer: u32 = p[1].parse().unwrap();
+                let t: u64 = p[2].parse().unwrap();
+                let resp = AppendEntriesResponse {
+                    node_id: peer,
+                    term: t,
+                    result: Some(append_entries_response::Result::Success(SuccessResult {
+                        last_match: Some(LogId { term: t, index: p[3].parse().unwrap() }),
+                    })),
+                };
+                if let Err(e) = st.handle_append_result(peer, Ok(resp), &env.ctx, &tx).await {
+                    extra.push(format!("!{}", err_tag(&e)));
+                }
+            }
+            "fl" => st.handle_log_flushed(p[1].parse().unwrap(), &env.ctx, &tx).await,
+            "A" => {
+                let commit = st.commit_index();
+                if commit > applied_upto {
+                    for e in env.ctx.raft_log().get_entries_range(applied_upto + 1..=commit).unwrap() {
+                        if let Some(EntryPayload { payload: Some(Payload::Config(mc)) }) = e.payload {
+                            match env.ctx.membership().apply_config_change(mc).await {
+                                Ok(()) => {
+                                    let _ = st.handle_membership_applied(&env.ctx, &tx).await;
+                                }
+                                Err(e) => extra.push(format!("!{}", err_tag(&e))),
+                            }
+                        }
+                    }
+                    applied_upto = commit;
+                }
+            }
+            _ => extra.push("!bad-op".into()),
+        }
+        let mut ev: Vec<String> = env.events().into_iter().filter(|e| e.starts_with('N') || e == "BF").collect();
+        // events first (as emitted), then the step's own notes; `left:` goes first to match the model
+        let (left, rest): (Vec<String>, Vec<String>) = extra.into_iter().partition(|x| x.starts_with("left:"));
+        let mut all = left;
+        all.append(&mut ev);
+        all.extend(rest);
+        let cm = st.verif_cluster_metadata();
+        let voters: Vec<u32> = cm.replication_targets.iter().filter(|n| n.role != NodeRole::Learner as i32).map(|n| n.id).collect();
+        out.push(format!(
+            "c{} l{} m[{}] v[{}] tv{} sv{} e[{}]",
+            st.commit_index(),
+            env.ctx.raft_log().last_entry_id(),
+            show_map(&st.leader_state_snapshot().match_index),
+            show_ids(voters),
+            cm.total_voters,
+            cm.single_voter as u8,
+            if all.is_empty() { "-".to_string() } else { all.join(",") }
+        ));
+    }
+    drop(st);
+    out.join(" | ")
+}
+
 async fn run(case: &str) -> String {
     let (head, ops) = case.split_once('|').unwrap_or((case, ""));
     let f = fields(head);
@@ -509,6 +602,7 @@ async fn run(case: &str) -> String {
         Some("rs") => run_rs(&f, ops).await,
         Some("lr") => run_lr(&f, ops).await,
         Some("jn") => run_jn(&f, ops).await,
+        Some("pq") => run_pq(&f, ops).await,
         _ => "bad-kind".into(),
     }
 }
@@ -662,6 +756,52 @@ fn gen_jn(r: &mut Rng) -> String {
     format!("k=jn t={} log={} nodes={}|{}", term, dv::show_list(&log), nodes.join(","), ops.join(";"))
 }
 
+fn gen_pq(r: &mut Rng) -> String {
+    // leader 1 + old voters + learners; the batch promotion is in flight while acks arrive from either side
+    let nv = *r.pick(&[1u64, 3, 3, 3, 2, 5]);
+    let nl = 1 + r.below(3);
+    let (nodes, voters, learners) = gen_nodes(r, nv, nl, false);
+    let term = 1 + r.below(3);
+    let loglen = r.below(3);
+    let log: Vec<u64> = (0..loglen).map(|_| term).collect();
+    let mut last = loglen;
+    let mut ops = vec![];
+    let mut promoted = false;
+    let side = r.below(3); // 0: only learners ack, 1: only old voters ack, 2: mixed
+    for _ in 0..(2 + r.below(8)) {
+        match r.below(10) {
+            0 | 1 if !promoted || r.chance(1, 4) => {
+                let mut ls = learners.clone();
+                let k = 1 + r.below(ls.len() as u64) as usize;
+                while ls.len() > k { let i = r.below(ls.len() as u64) as usize; ls.remove(i); }
+                ops.push(format!("P:{}", ls.iter().map(|x| x.to_string()).collect::<Vec<_>>().join(",")));
+                last += 1;
+                promoted = true;
+            }
+            2 | 3 | 4 | 5 | 6 => {
+                let pool: Vec<u32> = match side {
+                    0 => learners.clone(),
+                    1 => voters.iter().filter(|x| **x != 1).cloned().collect(),
+                    _ => voters.iter().filter(|x| **x != 1).chain(learners.iter()).cloned().collect(),
+                };
+                if pool.is_empty() { ops.push(format!("fl:{}", last)); } else {
+                    let peer = pool[r.below(pool.len() as u64) as usize];
+                    let m = if r.chance(2, 3) { last } else { r.below(last + 1) };
+                    ops.push(format!("ok:{}:{}:{}", peer, term, m));
+                }
+            }
+            7 => ops.push(format!("fl:{}", r.below(last + 1))),
+            _ => ops.push("A".into()),
+        }
+        if !promoted && ops.len() >= 2 {
+            ops.push(format!("P:{}", learners.iter().map(|x| x.to_string()).collect::<Vec<_>>().join(",")));
+            last += 1;
+            promoted = true;
+        }
+    }
+    format!("k=pq t={} log={} nodes={}|{}", term, dv::show_list(&log), nodes.join(","), ops.join(";"))
+}
+
 fn generate(r: &mut Rng, n: usize, tier: &str) -> Vec<String> {
     let mut out = vec![];
     // restart and join cases touch the file system / spawn tasks: keep their share small in quick tier
@@ -670,7 +810,8 @@ fn generate(r: &mut Rng, n: usize, tier: &str) -> Vec<String> {
         let c = match i % 12 {
             0 | 1 => gen_rs(r),
             2 => gen_jn(r),
-            3 | 4 | 5 | 6 => gen_cl(r),
+            3 | 4 | 5 => gen_cl(r),
+            6 => gen_pq(r),
             7 | 8 => gen_lr(r),
             9 => gen_view(r, true),
             _ => gen_view(r, false),
